@@ -13,7 +13,7 @@ ASSUMPTIONS = ["rounds are encoded by chain.RoundToBytes (8-byte big-endian), so
 BACKENDS = ["bolt", "trimmed", "trimmedprev", "mem10", "mem16"]
 
 THEOREMS = [
-    "Drand.Store.c18_insert_sorted", "Drand.Store.c18_erase_sorted", "Drand.Store.c18_lookup_insert",
+    "Drand.Store.tie_memdb_ops_atomic", "Drand.Store.c18_insert_sorted", "Drand.Store.c18_erase_sorted", "Drand.Store.c18_lookup_insert",
     "Drand.Store.c18_lookup_erase", "Drand.Store.c18_bolt_inv", "Drand.Store.c18_bolt_get_label",
     "Drand.Store.c18_bolt_refines_map", "Drand.Store.c18_last_is_max", "Drand.Store.c18_len_insert",
     "Drand.Store.c18_seek_present", "Drand.Store.c18_seek_least",
